@@ -549,51 +549,63 @@ def _wilder_refs(val, n, p):
     sp, sm, st = wilder_sum(pdm), wilder_sum(mdm), wilder_sum(tr)
     pdi = [None if st[k] is None else (0.0 if st[k] == 0 else 100.0 * sp[k] / st[k]) for k in range(n)]
     mdi = [None if st[k] is None else (0.0 if st[k] == 0 else 100.0 * sm[k] / st[k]) for k in range(n)]
-    return {"dm.plus": sp, "dm.minus": sm, "di.plus": pdi, "di.minus": mdi}
+    # ADX: DX = 100 |+DI - -DI| / (+DI + -DI) (0 when the sum is 0); first ADX = mean of the first p DX values, then Wilder's average
+    dx = [None if pdi[k] is None else (0.0 if (pdi[k] + mdi[k]) == 0 else 100.0 * abs(pdi[k] - mdi[k]) / (pdi[k] + mdi[k])) for k in range(n)]
+    adx = [None] * n
+    if 2 * p < n:
+        adx[2 * p] = sum(dx[p:2 * p]) / p
+        for k in range(2 * p + 1, n):
+            adx[k] = (adx[k - 1] * (p - 1) + dx[k]) / p
+    # TRIMA: simple average of a simple average (triangular weights)
+    a, b = ((p + 1) // 2, (p + 1) // 2) if p % 2 else (p // 2, p // 2 + 1)
+    s1 = [None if k < a - 1 else sum(C[k - a + 1:k + 1]) / a for k in range(n)]
+    trima = [None if k < a + b - 2 else sum(s1[k - b + 1:k + 1]) / b for k in range(n)]
+    return {"dm.plus": sp, "dm.minus": sm, "di.plus": pdi, "di.minus": mdi, "adx.value": adx, "trima.value": trima}
 
 
 def check_witness_definitions(repo, rep):
     rid = "C15-R3"
-    rep.rule(rid, "Wilder's directional movement system (dm, di): the extracted expression of every output element is evaluated on six "
+    rep.rule(rid, "Wilder's directional movement system (dm, di, adx) and trima: the extracted expression of every output element is evaluated on six "
                   "adversarial candle valuations and compared with the textbook definition computed independently (+DM / -DM, true "
                   "range, Wilder running sums seeded with the sum of the first p values, DI = 100 * smoothed DM / smoothed TR, hence "
-                  "inside [0, 100]); a numerical difference is a counterexample, agreement is reported as agreement on the witnesses")
-    n, p = 16, 3
-    for name, fields in (("dm", ("plus", "minus")), ("di", ("plus", "minus"))):
-        try:
-            out = run_ind(repo, name, n=n, period=p)
-        except Undecided as e:
-            rep.undecided_item(f"{name}: {e}")
-            continue
-        for f in fields:
-            arr = out.get(f)
-            if not isinstance(arr, NA) or arr.ndim != 1 or len(arr.data) != n:
-                rep.undecided_item(f"{name}.{f}: output is not a series of {n} entries")
-                continue
-            bad = None
-            for vn, val in IR.valuations(n):
-                ref = _wilder_refs(val, n, p)[f"{name}.{f}"]
-                for i in range(n):
-                    try:
-                        g = eval_dag(arr.data[i], val)
-                    except Undecided as e:
-                        g = None
-                    r = ref[i]
-                    gn = g is None or (isinstance(g, float) and g != g)
-                    if r is None:
-                        continue            # before the definition starts: the warm-up convention is not part of the definition
-                    if gn or abs(g - r) > 1e-9 * max(1.0, abs(r)):
-                        bad = (vn, i, g, r)
-                        break
-                    if name == "di" and not (-1e-9 <= g <= 100 + 1e-9):
-                        bad = (vn, i, g, "a value in [0, 100]")
-                        break
-                if bad:
-                    break
-            if bad:
-                rep.violation(rid, f"{name}|{f}", f"{name}(period={p}).{f} element {bad[1]} is {bad[2]!r} on the valuation '{bad[0]}', Wilder's definition gives {bad[3]!r}")
-            rep.instance(rid, f"{name}|{f}", {"indicator": name, "field": f, "agrees_on_witnesses": bad is None})
-    rep.floor(rid, 4)
+                  "inside [0, 100]; DX and ADX with the mean of the first p DX values as seed; trima = simple average of a simple average); a numerical difference is a counterexample, agreement is reported as agreement on the witnesses")
+    n = 16
+    for p in (3, 4):
+      for name, fields in (("dm", ("plus", "minus")), ("di", ("plus", "minus")), ("adx", ("value",)), ("trima", ("value",))):
+          try:
+              out = run_ind(repo, name, n=n, period=p)
+          except Undecided as e:
+              rep.undecided_item(f"{name}: {e}")
+              continue
+          for f in fields:
+              arr = out.get(f)
+              if not isinstance(arr, NA) or arr.ndim != 1 or len(arr.data) != n:
+                  rep.undecided_item(f"{name}.{f}: output is not a series of {n} entries")
+                  continue
+              bad = None
+              for vn, val in IR.valuations(n):
+                  ref = _wilder_refs(val, n, p)[f"{name}.{f}"]
+                  for i in range(n):
+                      try:
+                          g = eval_dag(arr.data[i], val)
+                      except Undecided as e:
+                          g = None
+                      r = ref[i]
+                      gn = g is None or (isinstance(g, float) and g != g)
+                      if r is None:
+                          continue            # before the definition starts: the warm-up convention is not part of the definition
+                      if gn or abs(g - r) > 1e-9 * max(1.0, abs(r)):
+                          bad = (vn, i, g, r)
+                          break
+                      if name == "di" and not (-1e-9 <= g <= 100 + 1e-9):
+                          bad = (vn, i, g, "a value in [0, 100]")
+                          break
+                  if bad:
+                      break
+              if bad:
+                  rep.violation(rid, f"{name}|{f}", f"{name}(period={p}).{f} element {bad[1]} is {bad[2]!r} on the valuation '{bad[0]}', the definition gives {bad[3]!r}")
+              rep.instance(rid, f"{name}|{f}|p={p}", {"indicator": name, "field": f, "period": p, "agrees_on_witnesses": bad is None})
+    rep.floor(rid, 8)
 
 
 def check_nan_poisoning(repo, rep):
